@@ -13,6 +13,7 @@ import (
 	"fmt"
 	"io"
 	"net"
+	"strings"
 	"time"
 
 	cj "github.com/refraction-networking/conjure/pkg/station/lib"
@@ -342,9 +343,121 @@ func verifC04(a *vh.Args) {
 			}
 		}
 	}
+	// ---- recognition of a genuine obfs4 flight of the maximum handshake length (the client drew the maximum padding:
+	// once in about 8000 handshakes, so the live client above practically never produces it). The flight is captured
+	// from the real client and replayed statically: recognition, the covert dial, the used mark and the cleared
+	// deadline can be checked under every segmentation; data integrity needs the live client and is covered above.
+	if only == "" || strings.Contains(only, "obfs4-maxlen-static") {
+		spec := regSpec{secret: 1, tt: pb.TransportType_Obfs4, params: gp, valid: true}
+		flight := vfix.Obfs4FlightOfLen(vfix.Secret(1), 8192, 150000)
+		e.Out.Extra["obfs4_maxlen_flight_found"] = flight != nil
+		if flight != nil {
+			cutSets := [][]int{nil, {1}, {31}, {32}, {64}, {4095}, {4096}, {4097}, {8191}, {4096, 8191}, {1, 8191}, {32, 4096}}
+			for ci, cuts := range cutSets {
+				if ci%a.ShardN != a.ShardI {
+					continue
+				}
+				for _, co := range []string{"alone", "three-mixed"} {
+					id := fmt.Sprintf("transport=obfs4-maxlen-static;coresident=%s;cuts=%v", co, cuts)
+					if only != "" && id != only {
+						continue
+					}
+					if !e.Case() {
+						goto done
+					}
+					rm := vfix.Manager(nil, vfix.Selector(vfix.SubnetsTOML), &vfix.Tester{}, vfix.AllWrapping, nil)
+					var anns []cj.VerifDetectorMsg
+					rm.VerifCaptureDetector(&anns)
+					mine := addReg(rm, spec, phantom)
+					if co == "three-mixed" {
+						addReg(rm, regSpec{secret: 2, tt: pb.TransportType_Min, params: gp, valid: true}, phantom)
+						addReg(rm, regSpec{secret: 3, tt: pb.TransportType_Prefix, params: &pb.PrefixTransportParams{PrefixId: proto.Int32(0)}, valid: true}, phantom)
+						addReg(rm, regSpec{secret: 4, tt: pb.TransportType_Obfs4, params: gp, valid: true}, phantom)
+					}
+					r := runC04Static(rm, &anns, phantom, flight, cuts)
+					rep := map[string]any{"case": id}
+					switch {
+					case r.verdict == vsched.VPanic:
+						e.Violation("panic:obfs4", id+": "+r.detail, rep)
+					case len(r.dialed) == 0:
+						e.Violation("flight-not-recognised:obfs4", fmt.Sprintf("%s: a genuine %d-byte obfs4 flight led to no covert dial (verdict %s %s)", id, len(flight), r.verdict, r.detail), rep)
+					default:
+						if r.updFor != mine {
+							e.Violation("matched-other-registration:obfs4", id, rep)
+						}
+						if used, found := rm.VerifIsUsed(mine); !found || !used {
+							e.Violation("registration-not-marked-used:obfs4", id, rep)
+						}
+						if !r.dlCleared {
+							e.Violation("classification-deadline-not-cleared:obfs4", id, rep)
+						}
+						e.Nontrivial(id)
+					}
+				}
+			}
+		}
+	}
 done:
 	loud()
 	e.Finish()
+}
+
+// runC04Static replays a captured first flight (no live client): the client end writes the flight under the given
+// segmentation, waits for the station's answer and closes.
+func runC04Static(rm *cj.RegistrationManager, anns *[]cj.VerifDetectorMsg, phantom net.IP, flight []byte, cuts []int) c04Result {
+	vrand.Script = func(kind string, n int64) (float64, bool) {
+		if kind == "Int63n" {
+			return 2500, true
+		}
+		return 0, false
+	}
+	defer func() { vrand.Script = nil; vnet.DialHook = nil }()
+	*anns = (*anns)[:0]
+	caddr := &net.TCPAddr{IP: net.IPv4(203, 0, 113, 77), Port: 54321}
+	paddr := &net.TCPAddr{IP: phantom, Port: 443}
+	cli := &vconn.Conn{Name: "client-end", Local: caddr, Remote: paddr}
+	sta := &vconn.Conn{Name: "station-end", Local: paddr, Remote: caddr}
+	cli.PipeTo, sta.PipeTo = sta, cli
+	cli.PipeCuts, cli.PipeGap = cuts, []time.Duration{0}
+	covert := &vconn.Conn{Name: "covert", Echo: true}
+	var res c04Result
+	vnet.DialHook = func(network, address string) (net.Conn, error) {
+		res.dialed = append(res.dialed, address)
+		return covert, nil
+	}
+	cm := newConnManager(nil)
+	x, _ := vsched.RunOnce(nil, 200000, func() *vsched.Scenario {
+		return &vsched.Scenario{Body: func() {
+			var wg vsync.WaitGroup
+			wg.Add(2)
+			vsched.GoNamed("client", func() {
+				defer wg.Done()
+				_, _ = cli.Write(flight)
+				_ = cli.SetReadDeadline(vsched.VNow().Add(20 * time.Second))
+				buf := make([]byte, 8192)
+				_, _ = cli.Read(buf) // the station's handshake answer (or the end of the connection)
+				cli.Close()
+			})
+			vsched.GoNamed("handler", func() {
+				defer wg.Done()
+				cm.handleNewTCPConn(rm, sta, phantom)
+				sta.Close()
+			})
+			wg.Wait()
+		}}
+	})
+	res.verdict, res.detail = x.Verdict, x.Detail
+	for _, d := range sta.DeadlineSets {
+		if d.IsZero() {
+			res.dlCleared = true
+		}
+	}
+	for _, an := range *anns {
+		if an.Op == "Update" {
+			res.updFor = an.Reg
+		}
+	}
+	return res
 }
 
 func firstDiff(a, b []byte) int {
